@@ -48,6 +48,12 @@ def rerun(ctx, prop, case):
         cf = os.path.join(d, "c.ndjson")
         open(cf, "w").write(json.dumps(case["case"]) + "\n")
         ctx.harness([case["cmd"], "-in", cf, "-out", out])
+    elif case["kind"] == "chain":
+        cases = os.path.join(d, "cases.ndjson")
+        if not os.path.exists(cases):
+            ctx.tlc("ContactGen", "ContactGen.cfg", timeout=1200, constants=dict(OutFile=json.dumps(cases)))
+        ctx.harness(["c03-apply", "-in", cases, "-out", out] + case["args"])
+        want = case["src"]
     else:
         ctx.harness(["eng-fixtures", "-out", os.path.join(d, "e.tsv"), "-contact", out, "-only", case["fixture"]] + case["args"])
         want = case["src"]
@@ -82,6 +88,9 @@ def run(ctx, prop):
     if ncases == 0:
         raise vlib.Infra("TLC exported no cases")
     a_outs, a_st = ctx.shards("c03-apply", cases, os.path.join(ctx.work, "apply.trace"))
+    # histories: random chains of modifiers (each applied twice) from random starting contacts of the enumerated domain
+    chargs = ["-chains", "3000" if q else "120000", "-chainlen", "4", "-seed", str(ctx.seed + 1)]
+    ch_outs, ch_st = ctx.shards("c03-apply", cases, os.path.join(ctx.work, "chains.trace"), extra=chargs)
     every = str(2 + ctx.seed % 2) if q else "1"
     s_outs, s_st = ctx.shards("c03-sprints", cases, os.path.join(ctx.work, "sprints.trace"), extra=["-every", every])
     fxargs = ["-off", "2" if q else "4", "-seed", str(ctx.seed + 1)]
@@ -101,7 +110,7 @@ def run(ctx, prop):
     if drift:
         vlib.log(f"DRIFT spec=Contact: {drift} modifier applications differ from the model's expectation, e.g. {drift_ex[:1]}")
     tracefile = os.path.join(ctx.work, "trace.ndjson")
-    nlines = ctx.merge_trace(a_outs + s_outs + cparts, tracefile)
+    nlines = ctx.merge_trace(a_outs + ch_outs + s_outs + cparts, tracefile)
     viols, _ = validate(ctx, prop, tracefile)
 
     by_key = {}
@@ -110,7 +119,10 @@ def run(ctx, prop):
     known = {k["key"] for k in vlib.load_known().get("findings", []) if k["property"] == prop}
     for key, (name, line) in sorted(vlib.limit_new(by_key, prop).items()):
         src = line["src"]
-        if "#" in src:
+        if src.startswith("chain/"):
+            shard = src.split("/")[2]
+            case = dict(kind="chain", args=chargs + ["-shard", shard, "-nshards", str(vlib.NCPU)], src=src, pred=name, line=line)
+        elif "#" in src:
             path, idx = src.split("/r")[0].split("@")[0].rsplit("#", 1)
             with open(path) as f:
                 for i, l in enumerate(f):
